@@ -3,6 +3,7 @@
 import json, glob, os
 
 STRENGTHENED = {
+ 'C17d-lower-term-noop-only-with-checkquorum': 'caught as it was (E1, 1 key); silent at seed 1 once a quarter of the E1 cases had become rate limiting cases (the case that caught it was displaced): a third of the partitions of the C17 cases now mute the target of the latest leader transfer (caught at seeds 1-3, 5-7 cases of 6400 each)',
  'C01d-early-replicate-commit-cap-neutralised': 'the E2 learner stage (single voter + non-voting replica, power loss between the early Replicate and SaveRaftState) reports the same observation in terms of C01 and is registered for C01',
  'C04d-ondisk-shrink-before-sync': 'crash sites at the user state machine boundary (exit of RecoverFromSnapshot, entry of the first Sync after it, entry / exit of SaveSnapshot, any Sync); power loss of the follower while it is being caught up by snapshot in the catch-up cycles; replay stage registered for C04',
  'C05d-empty-result-not-recorded-in-session': 'rsmcheck user state machine returns boundary results: the zero Result, a zero value with data, an empty non-nil Data',
